@@ -35,7 +35,7 @@ void Encoder::setMessageType(const Packet& packet){
 
 std::vector<std::vector<uint8_t>> Encoder::getEncodedData()
 {
-    cmpFrames.back().resize(std::max(cmpFrames.back().size() - bytesLeft, minBytesPerMessage), 0);
+    closeLastFrame();
     auto frames = std::move(cmpFrames);
     clearEncodingMetadata(false);
     return frames;
@@ -111,8 +111,7 @@ void Encoder::createCmpFrameTemplate(const Packet& packet)
 
 void Encoder::addNewCMPFrame(const Packet& packet)
 {
-    if (!cmpFrames.empty())
-        cmpFrames.back().resize(std::max(cmpFrames.back().size() - bytesLeft, minBytesPerMessage), 0);
+    closeLastFrame();
 
     if (cmpFrameTemplate.empty())
         createCmpFrameTemplate(packet);
@@ -121,6 +120,21 @@ void Encoder::addNewCMPFrame(const Packet& packet)
     auto header = reinterpret_cast<CmpHeader*>(cmpFrames.back().data());
     header->setSequenceCounter(++sequenceCounter);
     bytesLeft = maxBytesPerMessage - sizeof(CmpHeader);
+}
+
+void Encoder::closeLastFrame()
+{
+    if (cmpFrames.empty())
+        return;
+
+    if (bytesLeft == maxBytesPerMessage - sizeof(CmpHeader))
+    {
+        // The frame holds no message: drop it and give its sequence counter back
+        cmpFrames.pop_back();
+        --sequenceCounter;
+    }
+    else
+        cmpFrames.back().resize(std::max(cmpFrames.back().size() - bytesLeft, minBytesPerMessage), 0);
 }
 
 void Encoder::addNewDataHeader(const Packet& packet, uint16_t bytesToAdd, SegmentType segmentationFlag)
